@@ -4,6 +4,7 @@ package vegeta_test
 
 import (
 	"encoding/json"
+	"errors"
 	"fmt"
 	"io"
 	"net/http"
@@ -29,6 +30,7 @@ type c04Case struct {
 	MaxWorkers    uint64
 	Latency       []int64 // response latency per hit (cycled), ns
 	ConsumerDelay int64   // the consumer sleeps this long after each result
+	Faults        []int   // these requests (by order of arrival at the transport) fail with a connection error
 }
 
 type c04Call struct {
@@ -63,8 +65,11 @@ func (p *c04Pacer) Rate(time.Duration) float64 { return 0 }
 type c04Transport struct {
 	mu      sync.Mutex
 	lat     []int64
+	faults  map[int]bool
 	entries []time.Time
 }
+
+var c04FaultTexts = []string{"EOF", "read tcp 10.0.0.1:1->10.0.0.2:80: read: connection reset by peer", "http: server closed idle connection", "unexpected EOF"}
 
 func (t *c04Transport) RoundTrip(req *http.Request) (*http.Response, error) {
 	t.mu.Lock()
@@ -78,6 +83,9 @@ func (t *c04Transport) RoundTrip(req *http.Request) (*http.Response, error) {
 	if l > 0 {
 		time.Sleep(time.Duration(l))
 	}
+	if t.faults[i] {
+		return nil, errors.New(c04FaultTexts[i%len(c04FaultTexts)])
+	}
 	return &http.Response{Status: "200 OK", StatusCode: 200, Proto: "HTTP/1.1", ProtoMajor: 1, ProtoMinor: 1,
 		Header: http.Header{}, Body: io.NopCloser(strings.NewReader("")), Request: req}, nil
 }
@@ -90,7 +98,10 @@ type c04Outcome struct {
 
 func execC04(c c04Case) (out c04Outcome, err error) {
 	p := &c04Pacer{waits: c.Waits}
-	tr := &c04Transport{lat: c.Latency}
+	tr := &c04Transport{lat: c.Latency, faults: map[int]bool{}}
+	for _, f := range c.Faults {
+		tr.faults[f] = true
+	}
 	atk := vegeta.NewAttacker(vegeta.Client(&http.Client{Transport: tr}), vegeta.Workers(c.Workers), vegeta.MaxWorkers(c.MaxWorkers))
 	t0 := time.Now()
 	results := atk.Attack(vegeta.NewStaticTargeter(vegeta.Target{Method: "GET", URL: "http://c04.test/"}), p, time.Duration(c.Duration), "c04")
@@ -270,6 +281,9 @@ func TestC04Loop(t *testing.T) {
 		nl := rapid.IntRange(0, 4).Draw(t, "nlat")
 		for i := 0; i < nl; i++ {
 			c.Latency = append(c.Latency, rapid.OneOf(rapid.SampledFrom([]int64{0, 1, 1e6, 1e9, 120e9}), rapid.Int64Range(0, 200e6)).Draw(t, fmt.Sprintf("lat%d", i)))
+		}
+		if rapid.IntRange(0, 2).Draw(t, "faults") == 0 {
+			c.Faults = rapid.SliceOfN(rapid.IntRange(0, n), 1, 8).Draw(t, "faultidx")
 		}
 		if rapid.IntRange(0, 2).Draw(t, "slowconsumer") == 0 {
 			c.ConsumerDelay = rapid.Int64Range(1, 2e9).Draw(t, "cdelay")
